@@ -327,6 +327,22 @@ func (fr *Frame) execBlock(b *ssa.BasicBlock, entryReach Term, entrySt *State) {
 		fr.execInstr(ins)
 	}
 	fr.exit[b] = fr.cur
+	// "loop N complete": leaving the loop from inside its body (break, return, panic) must be unreachable
+	for _, l2 := range fr.loops {
+		if l2.spec == nil || !l2.spec.Complete || !l2.body[b] || b == l2.header {
+			continue
+		}
+		name := fmt.Sprintf("loop-complete:loop%d", l2.ordinal)
+		last := b.Instrs[len(b.Instrs)-1]
+		if _, isRet := last.(*ssa.Return); isRet {
+			vc.oblige(name, reach, tFalse, "no return from inside the loop: every element is processed", last.Pos())
+		}
+		for k, s2 := range b.Succs {
+			if !l2.body[s2] {
+				vc.oblige(name, tAnd(reach, fr.edge[b][k]), tFalse, "no break out of the loop: every element is processed", last.Pos())
+			}
+		}
+	}
 	// back edges leaving this block
 	for k, s := range b.Succs {
 		if fr.isBackEdge(b, s) {
